@@ -42,7 +42,7 @@ var edOps = []string{"abs", "add", "ceil", "exp", "floor", "ln", "log10", "mul",
 	"reduce", "rem", "round", "sqrt", "sub", "tointv", "tointx"}
 
 var machineOps = []string{"add", "sub", "mul", "quo", "quoint", "rem", "cmp", "abs", "neg", "round", "quantize", "tointx", "tointv",
-	"ceil", "floor", "reduce", "sqrt", "cbrt"}
+	"ceil", "floor", "reduce", "sqrt", "cbrt", "dneg", "dabs", "dset", "dreduce"}
 var edMachineOps = []string{"abs", "add", "ceil", "floor", "mul", "neg", "quantize", "quo", "quoint", "reduce", "rem", "round", "sqrt",
 	"sub", "tointv", "tointx"}
 
@@ -202,6 +202,14 @@ func callOn(c *apd.Context, op string, d, x, y *apd.Decimal, q int) (out AOut) {
 		fl, err = c.Ln(d, x)
 	case "log10":
 		fl, err = c.Log10(d, x)
+	case "dneg":
+		d.Neg(x)
+	case "dabs":
+		d.Abs(x)
+	case "dset":
+		d.Set(x)
+	case "dreduce":
+		_, out.Cnt = d.Reduce(x)
 	default:
 		panic("unknown op " + op)
 	}
